@@ -60,13 +60,21 @@ def _get_path(thing):
     return thing if isinstance(thing, path.Path) else thing.path
 
 
+def multitarget_primary(targets):
+    # The target whose rule actually holds the recipe (and the dependencies)
+    # for a rule with these targets.
+    targets = listify(targets)
+    if len(targets) > 1:
+        return _get_path(targets[0]).addext('.stamp')
+    return targets[0]
+
+
 def multitarget_rule(build_inputs, buildfile, targets, deps=None,
                      order_only=None, recipe=None, variables=None, phony=None,
                      clean_stamp=True):
     targets = listify(targets)
     if len(targets) > 1:
-        first = targets[0]
-        primary = _get_path(first).addext('.stamp')
+        primary = multitarget_primary(targets)
         # Give this rule a (no-op) recipe so that Make re-checks the targets'
         # timestamps after the stamp's recipe has rewritten them; without one,
         # Make keeps using the timestamps it saw before, and steps depending
